@@ -379,6 +379,35 @@ fn check_lazy(c: &LazyGrid, rec: &mut Rec) -> Verdict {
         if k != c.rows.len() {
             return Verdict::fail("C11:lazy:row-count", format!("iterator yields {k} rows, document has {} on {}", c.rows.len(), show(bytes)));
         }
+        // the same rows in the same order however the iterator is driven: nth / skip / step_by land on the rows that
+        // stepping one by one reaches (rows skipped over may hold nested grids, lists, strings with line breaks)
+        let all: Vec<RVal> = match from_str(&text) {
+            Ok(Value::Grid(g)) => g.rows.iter().map(|r| project(&Value::Dict(r.clone()))).collect(),
+            _ => return Verdict::Pass,
+        };
+        let n = all.len();
+        if n >= 2 {
+            let j = (key_of(&text) as usize) % n;
+            let drive = |how: u8| -> Result<Vec<RVal>, String> {
+                let mut rd = PlanReader::new(bytes, &c.plan);
+                let mut parser = Parser::make(&mut rd).map_err(|e| e.to_string())?;
+                let mut it = parse_grid_iterator(&mut parser).map_err(|e| e.to_string())?;
+                let picked: Vec<_> = match how {
+                    0 => it.nth(j).into_iter().collect(),
+                    1 => it.skip(j).collect(),
+                    _ => it.step_by(2 + j % 3).collect(),
+                };
+                picked.into_iter().map(|r| r.map(|d| project(&Value::Dict(d))).map_err(|e| e.to_string())).collect()
+            };
+            let expect: [Vec<RVal>; 3] = [vec![all[j].clone()], all[j..].to_vec(), all.iter().step_by(2 + j % 3).cloned().collect()];
+            for (how, name) in [(0u8, "nth"), (1, "skip"), (2, "step_by")] {
+                match drive(how) {
+                    Ok(got) if got == expect[how as usize] => {}
+                    Ok(got) => return Verdict::fail(format!("C11:lazy:{name}:rows-differ"), format!("{name}({j}) over the row iterator yields {} rows that differ from the rows reached one by one ({} expected) on {}", got.len(), expect[how as usize].len(), show(bytes))),
+                    Err(e) => return Verdict::fail(format!("C11:lazy:{name}:row-rejected"), format!("{name}({j}) over the row iterator: {e} on {}", show(bytes))),
+                }
+            }
+        }
         Verdict::Pass
     });
     match r {
@@ -474,7 +503,7 @@ const ZINC_EDGE_SPELLINGS: &[&str] = &[
     "2021-06-01T12:00:00-02:30 St_Johns", "2021-06-01T12:00:00+05:45 Kathmandu", "2021-06-01T12:00:00+13:00 Tongatapu", "2021-06-01T12:00:00+14:00 Kiritimati", "2021-06-01T12:00:00-11:00 Pago_Pago",
     "M(\"x\")", "T(\"x\")", "NA(\"x\")", "INF(\"x\")", "Bin(\"text/plain\")", "C(0,0)", "C(-90,-180)", "C(1e1,1_0)", "@a \"\"", "@a \"a\"", "`a b`", "`\\`b`", "\"\\u00e9\\uD83D\\uDE00\"", "\"$x ${y}\"", "^a:b-c.d~e",
     "[]", "[ ]", "{}", "{ }", "[,]", "[1,]", "{a:N}", "{a b:1 c}", "{a,b:1,c}", "[[],{},[{}]]",
-    "ver:\"2.0\"\na\n1\n", "ver:\"3.0\" a b:1\na c,b\n1,N\n,\n", "ver:\"3.0\"\nempty\n", "ver:\"3.0\"\na\n\n", "ver:\"3.0\"\r\na\r\n1\r\n", "ver:\"3.0\"\na\n<<\nver:\"3.0\"\nb\n2\n>>\n",
+    "ver:\"2.0\"\na\n1\n", "ver:\"3\\\"0\"\na\n1\n", "ver:\"2.0\\\\\"\na\n1\n", "[<<\nver:\"x\\\"y\"\na\n1\n>>]", "ver:\"\"\na\n", "ver:\"3.0\\n\"\na\n1\n", "ver:\"3.0\" a b:1\na c,b\n1,N\n,\n", "ver:\"3.0\"\nempty\n", "ver:\"3.0\"\na\n\n", "ver:\"3.0\"\r\na\r\n1\r\n", "ver:\"3.0\"\na\n<<\nver:\"3.0\"\nb\n2\n>>\n",
 ];
 const HAYSON_EDGE_SPELLINGS: &[&str] = &[
     r#"{"_kind":"time","val":"23:59:60"}"#, r#"{"_kind":"time","val":"23:59:60.5"}"#, r#"{"_kind":"dateTime","val":"2016-12-31T23:59:60Z"}"#,
@@ -520,7 +549,7 @@ fn edge_spellings(ctx: &mut Ctx) {
 }
 
 pub fn run(ctx: &mut Ctx) {
-    ctx.rule("(a) accepted texts (reference-writer output with random legal spellings, accepted mutants of it, the repository's corpus files, and a table of ~100 edge spellings - leap seconds, '_' inside exponents, zero offsets in named zones, repeated hours, old grid versions - each bare, in a list, as a tag and as a grid cell): d1=decode(t), d2=decode(encode(d1)), d3=decode(encode(d2)) must exist with d1==d2==d3 strictly, for Zinc and Hayson; (b) Parser::parse_value over a reader with generated chunk sizes / Interrupted returns equals from_str, and parse_grid_iterator yields parse_grid's rows in order; (c) for generated grids built row by row (so every row's end offset is known) the iterator hands out row k having consumed no more than the end of the first token after that row + 16 bytes of look-ahead; non-trivial: (a) text differs from its re-encoding, (b) a splitting reader plan, (c) grid with >= 3 rows; distinct by text (+plan)");
+    ctx.rule("(a) accepted texts (reference-writer output with random legal spellings, accepted mutants of it, the repository's corpus files, and a table of ~100 edge spellings - leap seconds, '_' inside exponents, zero offsets in named zones, repeated hours, old grid versions - each bare, in a list, as a tag and as a grid cell): d1=decode(t), d2=decode(encode(d1)), d3=decode(encode(d2)) must exist with d1==d2==d3 strictly, for Zinc and Hayson; (b) Parser::parse_value over a reader with generated chunk sizes / Interrupted returns equals from_str, and parse_grid_iterator yields parse_grid's rows in order; (b') nth / skip / step_by over the row iterator land on the rows that stepping one by one reaches; (c) for generated grids built row by row (so every row's end offset is known) the iterator hands out row k having consumed no more than the end of the first token after that row + 16 bytes of look-ahead; non-trivial: (a) text differs from its re-encoding, (b) a splitting reader plan, (c) grid with >= 3 rows; distinct by text (+plan)");
     ctx.assume("the 16 byte slack covers the scanner's peek stash (number/date/time disambiguation peeks up to 10 bytes)");
     let depth = ctx.tier.pick(2, 3) as u32;
     corpus_fixpoints(ctx);
